@@ -390,6 +390,25 @@ def loops_to_comps(body: list[ast.stmt]) -> list[ast.stmt]:
                         ok = False
                 else:
                     ok = False
+            # an impure temporary that the filter also reads is evaluated once: keep it as a walrus in the filter
+            if ok and elt is not None and isinstance(stmts[-1], ast.If) and kind in ("list", "set"):
+                raw_cond = stmts[-1].test
+                raw_elt = stmts[-1].body[0].value.args[0] if isinstance(stmts[-1].body[0], ast.Expr) else None
+                shared = [k for k, v in mapping.items() if not is_pure(v) and any(isinstance(n, ast.Name) and n.id == k for n in ast.walk(raw_cond))]
+                if shared and raw_elt is not None:
+                    m2 = {k: v for k, v in mapping.items() if k not in shared}
+
+                    class _W(ast.NodeTransformer):
+                        def __init__(self):
+                            self.done = set()
+
+                        def visit_Name(self, node):
+                            if isinstance(node.ctx, ast.Load) and node.id in shared and node.id not in self.done:
+                                self.done.add(node.id)
+                                return ast.NamedExpr(target=ast.Name(id=node.id, ctx=ast.Store()), value=_Subst(m2).visit(copy.deepcopy(mapping[node.id])))
+                            return node
+                    cond = _W().visit(_Subst(m2).visit(copy.deepcopy(raw_cond)))
+                    elt = _Subst(m2).visit(copy.deepcopy(raw_elt))
             # the accumulator must not be read inside the loop
             if ok and elt is not None:
                 reads = [n for st in stmts for n in ast.walk(st) if isinstance(n, ast.Name) and n.id == acc and isinstance(n.ctx, ast.Load)]
